@@ -143,7 +143,7 @@ class FwdHooks(solverkit.StepHooks):
 
     def external_call(self, interp, dotted, args, kwargs, node, fi):
         if dotted == "torch.is_grad_enabled":
-            return nf.sym("GRAD_ENABLED", True)
+            return True
         if dotted == "torch.bmm":
             return nf.bilinear("bmm", args[0], args[1])
         if dotted == "torch.repeat_interleave":
